@@ -421,7 +421,11 @@ _APPEND = {
            "another source) so that the session's skip-if-equal logic is bound too.",
     "C17": " The OPEN a real session writes is decoded by the reference decoder in every session-level check and compared with the "
            "configuration (version, AS, 4-octet AS capability, hold time, identifier, RFC 9234 role).",
-    "C23": " The connection may break without a NOTIFICATION (ConnLost, RFC 4271 event 18). A quiet period (Wait: 2 s without events) is an action of its own: nothing may happen in OpenSent, OpenConfirm or "
+    "C22": " Negotiation must not depend on earlier sessions of the peer: all paths over two consecutive sessions with different OPENs "
+           "(role present / absent / another one in strict mode, 4-octet AS capability present / absent, hold time 90 / 0, quiet "
+           "periods), for a passive peer (a new FSM per connection, state kept in the peer) and an active peer whose own FSM is handed "
+           "the connections (verif hook) and reused.",
+    "C23": " An active peer whose own FSM serves session after session is replayed with all paths over three sessions. The connection may break without a NOTIFICATION (ConnLost, RFC 4271 event 18). A quiet period (Wait: 2 s without events) is an action of its own: nothing may happen in OpenSent, OpenConfirm or "
            "Established (hold time 0 or >= 30 s).",
     "C25": " Later additions: Unregister of a client that is not registered (all three tables) and DisposePeer while a Cease is "
            "already queued for an FSM in its reconnect pause.",
